@@ -13,8 +13,10 @@ import (
 	"sync/atomic"
 	"time"
 
+	"github.com/enfein/mieru/v3/pkg/appctl/appctlpb"
 	"github.com/enfein/mieru/v3/pkg/protocol"
 	"github.com/enfein/mieru/v3/pkg/protocol/serveruser"
+	"google.golang.org/protobuf/proto"
 	"verifharness/core"
 	"verifharness/sim"
 	"verifharness/wire"
@@ -63,7 +65,31 @@ func c07SessPool() []sim.User {
 		{Name: "s-dave", HashedHex: hp("s-dave", "d-1")}, // 3  configured by hashedPassword only
 		{Name: "s-bob", Password: "pw-bob-changed"},      // 4  bob re-added with another credential
 		{Name: "s-dave", HashedHex: hp("s-dave", "d-2")}, // 5  ONLY dave's hashedPassword rotated
+		// ONLY the quota differs (same name, same credential as 1 resp. 3): a reload between them changes
+		// nothing a client can see, but a session authenticated afterwards must carry the new policy
+		{Name: "s-bob", Password: "pw-bob", Quotas: []*appctlpb.Quota{{Days: proto.Int32(1), Megabytes: proto.Int32(100)}}},                                                                   // 6
+		{Name: "s-bob", Password: "pw-bob", Quotas: []*appctlpb.Quota{{Days: proto.Int32(1), Megabytes: proto.Int32(200)}}},                                                                   // 7
+		{Name: "s-dave", HashedHex: hp("s-dave", "d-1"), Quotas: []*appctlpb.Quota{{Days: proto.Int32(2), Megabytes: proto.Int32(50)}, {Days: proto.Int32(30), Megabytes: proto.Int32(900)}}}, // 8
 	}
+}
+
+// c07SessCredTok: pool entries with the same name and credential are ONE credential for the model and
+// for the oracles (the token of the first such entry)
+func c07SessCredTok(pool []sim.User, i int) int {
+	for j := range pool {
+		if pool[j].Name == pool[i].Name && string(pool[j].Hashed()) == string(pool[i].Hashed()) {
+			return j
+		}
+	}
+	return i
+}
+
+func c07SessQuotas(u sim.User) string {
+	var q [][2]int32
+	for _, x := range u.Quotas {
+		q = append(q, [2]int32{x.GetDays(), x.GetMegabytes()})
+	}
+	return fmt.Sprint(q)
 }
 
 type c07SessObs struct {
@@ -76,6 +102,8 @@ type c07SessObs struct {
 	Name     string `json:"name"`    // UserName() of the session the server accepted
 	Lookups  uint64 `json:"lookups"` // registry lookups while this dial was in progress
 	Clean    bool   `json:"clean"`   // no rejected dial before it in this world (stray retransmissions add lookups)
+	Policy   string `json:"policy"`  // quotas of the policy snapshot the accepted session carries
+	PolName  string `json:"policy_name"`
 	sid      int
 	addr     int
 }
@@ -158,7 +186,7 @@ func c07SessionsRun(c *core.Ctx, k c07SessCase) (obs []c07SessObs, events []stri
 	addrs := map[string]int{}
 	registered := map[int]bool{}
 	for _, i := range k.Initial {
-		registered[i] = true
+		registered[c07SessCredTok(pool, i)] = true
 	}
 	tag := byte(0)
 	sid := 0
@@ -173,7 +201,7 @@ func c07SessionsRun(c *core.Ctx, k c07SessCase) (obs []c07SessObs, events []stri
 			w.Server.SetServerUsers(sim.PBUsers(us))
 			registered = map[int]bool{}
 			for _, i := range st.Users {
-				registered[i] = true
+				registered[c07SessCredTok(pool, i)] = true
 			}
 			events = append(events, "R"+c07SessGen(pool, st.Users))
 		case "close":
@@ -233,7 +261,7 @@ func c07SessionsRun(c *core.Ctx, k c07SessCase) (obs []c07SessObs, events []stri
 				// (an underlay that carries a live session) lets in gets a generous deadline; a wrongly
 				// accepted one answers within milliseconds anyway
 				wait := 3 * time.Second
-				if registered[st.Cred] || o.Reused {
+				if registered[c07SessCredTok(pool, st.Cred)] || o.Reused {
 					wait = 25 * time.Second
 				}
 				conn.SetReadDeadline(time.Now().Add(wait))
@@ -246,6 +274,11 @@ func c07SessionsRun(c *core.Ctx, k c07SessCase) (obs []c07SessObs, events []stri
 				o.Lookups = l1 - l0
 				if rerr == nil && ok {
 					o.Accepted, o.Name = true, s.name
+					if pn, q, ok := protocol.VerifSessionPolicy(s.conn); ok {
+						o.PolName, o.Policy = pn, fmt.Sprint(q)
+					} else {
+						o.Policy = "none"
+					}
 					live[st.Cred] = append(live[st.Cred], c07SessLive{conn, s.conn, o.sid, o.addr})
 				} else {
 					conn.Close()
@@ -253,7 +286,7 @@ func c07SessionsRun(c *core.Ctx, k c07SessCase) (obs []c07SessObs, events []stri
 				}
 				obs = append(obs, o)
 				// the client's honest open request: sealed under its credential, hint names its user
-				events = append(events, fmt.Sprintf("S%d/%d/%d/1/%d/-/0", o.addr, 100+st.Cred, c07SessNameTok(pool, st.Cred), o.sid))
+				events = append(events, fmt.Sprintf("S%d/%d/%d/1/%d/-/0", o.addr, 100+c07SessCredTok(pool, st.Cred), c07SessNameTok(pool, st.Cred), o.sid))
 			}
 		}
 	}
@@ -282,7 +315,7 @@ func c07SessGen(pool []sim.User, idx []int) string {
 	}
 	parts := make([]string, len(s))
 	for j, i := range s {
-		parts[j] = fmt.Sprintf("%d:%d", c07SessNameTok(pool, i), 100+i)
+		parts[j] = fmt.Sprintf("%d:%d", c07SessNameTok(pool, i), 100+c07SessCredTok(pool, i))
 	}
 	return strings.Join(parts, ",")
 }
@@ -303,10 +336,13 @@ func c07SessionsCase(c *core.Ctx, k c07SessCase) {
 		return
 	}
 	// registered set at each step, for the direct oracles
-	cur := map[int]bool{}
+	cur := map[int]bool{}      // registered credentials (tokens)
+	record := map[string]int{} // user name → pool index of the published record
 	for _, i := range k.Initial {
-		cur[i] = true
+		cur[c07SessCredTok(pool, i)] = true
+		record[pool[i].Name] = i
 	}
+	carried := map[string]string{} // underlay (local address) → policy of the sessions it carries
 	oi := 0
 	// walk steps and observations together
 	ei := 0
@@ -314,8 +350,10 @@ func c07SessionsCase(c *core.Ctx, k c07SessCase) {
 		switch st.Kind {
 		case "reload":
 			cur = map[int]bool{}
+			record = map[string]int{}
 			for _, i := range st.Users {
-				cur[i] = true
+				cur[c07SessCredTok(pool, i)] = true
+				record[pool[i].Name] = i
 			}
 			ei++
 		case "close":
@@ -333,7 +371,8 @@ func c07SessionsCase(c *core.Ctx, k c07SessCase) {
 				if o.Fresh {
 					kind = "new-underlay"
 				}
-				regd := map[bool]string{true: "registered", false: "retired"}[cur[o.Cred]]
+				isReg := cur[c07SessCredTok(pool, o.Cred)]
+				regd := map[bool]string{true: "registered", false: "retired"}[isReg]
 				c.Hist("c07_sessions", fmt.Sprintf("%s/%s/%s/accepted=%v", transport, kind, regd, o.Accepted))
 				c.Eval(fmt.Sprintf("c07-sess/%s/%s/%d/%d/%s/%s", k.Name, transport, si, oi, kind, regd), o.Accepted)
 				what := fmt.Sprintf("step %d: %s dials over %s (%s, credential %s): server accepted=%v as %q, registry lookups %d; model %s",
@@ -342,11 +381,32 @@ func c07SessionsCase(c *core.Ctx, k c07SessCase) {
 				if o.Accepted && o.Name != pool[o.Cred].Name {
 					c.Violate("C07/sessions/attributed-to-other-user", what, k)
 				}
-				if o.Fresh && !cur[o.Cred] && o.Accepted {
+				if o.Fresh && !isReg && o.Accepted {
 					c.Violate("C07/sessions/retired-credential-new-connection", what+" — a new connection was authenticated with a credential that is no longer registered", k)
 				}
-				if o.Fresh && cur[o.Cred] && !o.Accepted {
+				if o.Fresh && isReg && !o.Accepted {
 					c.Violate("C07/sessions/registered-user-rejected", what, k)
+				}
+				// the POLICY the accepted session carries: a session authenticated by the registry (new
+				// connection) carries the policy of the user RECORD published now — also when a reload changed
+				// nothing but that record's quota; a session multiplexed into an authenticated underlay carries
+				// the snapshot of that underlay's authentication (documented behaviour, see Props/C07.lean)
+				if o.Accepted {
+					if o.Fresh || (k.UDP && !o.Reused) { // (UDP: no live session on that ip:port ⇒ the registry ran again)
+						want := c07SessQuotas(pool[record[pool[o.Cred].Name]])
+						c.Hist("c07_session_policy", fmt.Sprintf("%s/new-underlay/%s", transport, map[bool]string{true: "current-record", false: "OTHER"}[o.Policy == want]))
+						if o.Policy != want || o.PolName != pool[o.Cred].Name {
+							c.Violate("C07/sessions/stale-policy", what+fmt.Sprintf(" — the session carries the policy %s %s, the published record of %s has quotas %s", o.PolName, o.Policy, pool[o.Cred].Name, want), k)
+						}
+						carried[o.Local] = o.Policy
+					} else if prev, ok := carried[o.Local]; ok {
+						c.Hist("c07_session_policy", fmt.Sprintf("%s/carried-underlay/%s", transport, map[bool]string{true: "snapshot-of-the-underlay", false: "OTHER"}[o.Policy == prev]))
+						if o.Policy != prev {
+							c.Disagree("C07/corr/sessions/policy-of-carrier", what+fmt.Sprintf(" — carries %s, the underlay was authenticated with %s", o.Policy, prev), k)
+						}
+					} else {
+						carried[o.Local] = o.Policy
+					}
 				}
 				// ---- the model
 				if !k.UDP && !o.Fresh && !o.Reused && !o.Accepted && strings.HasPrefix(mo, "a:") {
@@ -396,6 +456,12 @@ func c07SessBoundary(udp bool, seed int64) []c07SessCase {
 		// bob removed and re-added with another credential
 		mk("user-readded-with-other-credential", 3, false, []int{0, 1}, dial(1, 2), reload(0), dial(1, 3), reload(0, 4), dial(1, 3), dial(4, 2)),
 	}
+	out = append(out,
+		// ONLY a quota changes (names and credentials equal): new connections carry the NEW policy
+		mk("only-quota-changed", 0, false, []int{0, 6}, dial(6, 1), reload(0, 7), dial(6, 2), dial(0, 1), reload(0, 1), dial(1, 1), reload(0, 6), dial(7, 1)),
+		mk("only-quota-changed-multiplexed", 8, false, []int{0, 6, 3}, dial(6, 2), dial(3, 1), reload(0, 7, 8), dial(6, 5), dial(3, 4)),
+		mk("quota-added-to-hashed-user", 0, true, []int{0, 3}, dial(3, 1), reload(0, 8), dial(3, 2), reload(0, 3), dial(8, 1)),
+	)
 	if udp {
 		// … and once bob's sessions are gone from the server's table the same ip:port is refused too
 		out = append(out, mk("g1-dies-out-with-the-last-session", 8, false, []int{0, 1}, dial(0, 1), dial(1, 2), reload(0), dial(1, 3), closeS(1), dial(1, 3), dial(0, 1)))
@@ -417,7 +483,7 @@ func init() {
 				switch c.Rand.Intn(4) {
 				case 0:
 					var next []int
-					for _, alt := range [][]int{{0}, {1, 4}, {2}, {3, 5}} {
+					for _, alt := range [][]int{{0}, {1, 4, 6, 7}, {2}, {3, 5, 8}} {
 						if c.Rand.Intn(4) != 0 {
 							next = append(next, alt[c.Rand.Intn(len(alt))])
 						}
@@ -428,7 +494,7 @@ func init() {
 					k.Steps = append(k.Steps, c07SessStep{Kind: "reload", Users: next})
 					cur = next
 				default:
-					cred := c.Rand.Intn(6)
+					cred := c.Rand.Intn(9)
 					if c.Rand.Intn(2) == 0 {
 						cred = cur[c.Rand.Intn(len(cur))]
 					}
